@@ -600,7 +600,11 @@ func ruleDecode(c *Ctx) *RuleResult {
 		r.Instances++
 		calls := find(fn, nil, nil)
 		pos := c.pos(fn.Pos())
-		if len(calls) != 1 || calleeName(calls[0]) != "encoding/json.Unmarshal" {
+		if len(calls) == 0 {
+			// the decoding is not done in this function (handed to a helper through a
+			// function value, a table ...): this rule does not see it
+			r.undecided("quoted-identifier", pos, fname(fn), "no json call in the scanner itself: where the delimited text is decoded is not visible to this rule")
+		} else if len(calls) != 1 || calleeName(calls[0]) != "encoding/json.Unmarshal" {
 			r.viol("quoted-identifier", pos, fname(fn), fmt.Sprintf("expected exactly one call of encoding/json.Unmarshal (whole-text decoder), found %d json calls %v", len(calls), callNames(calls)))
 		} else {
 			got := c.symStr(calls[0].Call.Args[0], 0)
@@ -643,6 +647,8 @@ func ruleDecode(c *Ctx) *RuleResult {
 		alt := "strings.ReplaceAll((*Lexer).consumeUntil(param#0,96)#0,\"\\\\`\",\"`\")"
 		if got == want || got == alt {
 			r.ok("json-literal-text", pos, fname(fn), "token text is "+got)
+		} else if got == "" {
+			r.undecided("json-literal-text", pos, fname(fn), "the scanner does not build its token here: where the token text comes from is not visible to this rule")
 		} else {
 			r.viol("json-literal-text", pos, fname(fn), "token text is "+got+", wanted "+want)
 		}
@@ -1150,6 +1156,9 @@ func (c *Ctx) inlineWrapper(call *ssa.Call, idx int, depth int) (string, bool) {
 		if e != exprs[0] {
 			return "", false
 		}
+	}
+	if strings.Contains(exprs[0], "phi") || strings.Contains(exprs[0], "…") {
+		return "", false // not one expression of the arguments: keep the call
 	}
 	return exprs[0], true
 }
